@@ -25,6 +25,29 @@ fn deep_recursion_locals(k: i64) -> (String, i64) {
     )
 }
 
+/// recursion shapes for the stack-limit sweep: (source for a depth, approximate stack slots per level)
+pub fn limit_shapes() -> Vec<(fn(i64) -> (String, i64), usize)> {
+    fn s2(k: i64) -> (String, i64) {
+        (format!("functie d(n) {{ als n <= 0 {{ antwoord 0 }} 1 + d(n - 1) }} d({k})"), k)
+    }
+    fn s3(k: i64) -> (String, i64) {
+        (format!("functie d(n) {{ als n <= 0 {{ antwoord 0 }} 1 + (2 + d(n - 1)) }} 0 + d({k})"), 3 * k)
+    }
+    fn s4(k: i64) -> (String, i64) {
+        (format!("functie d(n, m) {{ als n <= 0 {{ antwoord m }} 1 + (0 + d(n - 1, m)) }} d({k}, 5)"), k + 5)
+    }
+    fn s5(k: i64) -> (String, i64) {
+        (format!("functie d(n) {{ stel a = n; stel b = 1; als a <= 0 {{ antwoord 0 }} b + (0 + d(a - 1)) }} d({k})"), k)
+    }
+    fn s6(k: i64) -> (String, i64) {
+        (format!("functie d(n, x, y) {{ als n <= 0 {{ antwoord x + y }} lengte([1, d(n - 1, x, y)]) - 2 + d(0, x, y) + (0 * 1) }} d({k}, 3, 4)"), 7)
+    }
+    fn s7(k: i64) -> (String, i64) {
+        (format!("functie d(n) {{ stel a = 0; stel b = 0; stel c = 0; als n <= 0 {{ antwoord 0 }} 1 + (0 + (0 + d(n - 1))) }} d({k})"), k)
+    }
+    vec![(s2 as fn(i64) -> (String, i64), 2), (s3, 4), (s4, 5), (s5, 5), (s6, 6), (s7, 7)]
+}
+
 fn directed_texts() -> Vec<String> {
     let mut v = Vec::new();
     for k in [0, 1, 7, 200, 201] {
@@ -113,6 +136,28 @@ pub fn run_check(ctx: &Ctx) -> Report {
                 eprintln!("directed C12 program does not parse: {e}\n{src}");
                 std::process::exit(2);
             }
+        }
+    }
+    // the 16-bit stack limit: recursion shapes with different numbers of slots per level, at every depth around the point
+    // where the stack crosses 65 536 slots; the recursion ends by itself, so the value is known exactly (or the limit error is reported)
+    for (src_of, _) in limit_shapes() {
+        // locate the deepest recursion that still succeeds (every probe is itself judged), then sweep around it
+        let (mut lo, mut hi) = (1i64, 70_000i64);
+        while lo < hi {
+            let mid = (lo + hi + 1) / 2;
+            let (s, e) = src_of(mid);
+            check_directed_value(&mut rep, &s, e, 30_000_000);
+            let ok = matches!(run_eval(&s, &RunCfg { budget: 30_000_000, audit_heap: false }).outcome, Outcome::Value(_));
+            if ok {
+                lo = mid;
+            } else {
+                hi = mid - 1;
+            }
+        }
+        rep.count_n("limit-sweep:deepest-successful-recursion", lo as u64);
+        for depth in (lo - 8).max(1)..=(lo + 8) {
+            let (s, e) = src_of(depth);
+            check_directed_value(&mut rep, &s, e, 30_000_000);
         }
     }
     for k in [10, 200, 1000, 5000, 16_000, 21_000, 22_000, 33_000, 70_000] {
